@@ -264,8 +264,25 @@ def r3(F, rep):
                 ok, func=fs[m].q)
 
 
+def r3b(F, rep):
+    """Variable-level distance functions (scripted / custom-function periodic variables fold the difference themselves)."""
+    n = 0
+    for m in ("dist2", "dist2_lgrad", "dist2_rgrad"):
+        for f in F.func_q("colvar::" + m):
+            n += 1
+            uses = [x for x in f.walk() if x["k"] == "MemberExpr" and x.get("n") == "wrap_center"]
+            per = [x for x in f.walk() if x["k"] == "MemberExpr" and x.get("n") == "period"]
+            rep.add("C18-R3", "colvar::%s|centre" % m, f.loc(uses[0]) if uses else f.loc(),
+                    "colvar::%s folds the difference of a periodic scripted variable using `period` (%d uses) and %s" % (
+                        m, len(per), "NOT wrap_center" if not uses else "wrap_center (%d uses)" % len(uses)), bool(per) and not uses,
+                    detail="a difference is folded around zero; folding it around wrap_center makes the distance asymmetric and not minimal", func=f.q)
+    if n < 3:
+        raise AnalysisBroken("colvar::dist2 / dist2_lgrad / dist2_rgrad not found")
+
+
 def run(F, rep, tier):
     r1(F, rep)
     r2(F, rep)
     r3(F, rep)
+    r3b(F, rep)
     r4(F, rep)
